@@ -200,6 +200,12 @@ func lookupMethod(i *interpreter, typ types.Type, meth *types.Func) *ssa.Functio
 func visitInstr(fr *frame, instr ssa.Instruction) continuation {
 	if px := fr.i.px; px != nil {
 		px.steps++
+		if px.budgetOn && px.steps > px.budgetLimit {
+			px.budgetOn = false
+			m := px.currentModel()
+			px.recordViolation(px.budgetMsg, px.budgetClass, m, false)
+			panic(pathViolation{px.budgetMsg})
+		}
 		if px.steps > px.ex.cfg.MaxSteps {
 			panic(engineAbort{fmt.Sprintf("step bound %d exceeded (unwinding failure) in %s", px.ex.cfg.MaxSteps, fr.fn)})
 		}
